@@ -191,7 +191,7 @@ func TestVerifC16Dispose(t *testing.T) {
 	defer run.Finish()
 	run.Rule("trial = (kind in Dispose/ResourceBase/ManagerBase/ServiceBase/ResourceManager/nested) x (path in plain/parent-cancel/add-handler/handler-error) x K in {2,4,12} closers released from a spin barrier with seeded pre-close spins; distinct = (kind,path,K,overlap observed)")
 	r := run.Rand("trials")
-	n := run.Pick(30000, 300000)
+	n := run.Pick(12000, 200000)
 	kinds := []string{"Dispose", "ResourceBase", "ManagerBase", "ServiceBase", "ResourceManager", "nested"}
 	paths := []string{"plain", "parent-cancel", "add-handler", "handler-error"}
 	ks := []int{2, 4, 12}
